@@ -122,6 +122,13 @@ def apply_edit(q, op):
         if not 0 <= i < n:
             return None
         return q[:i + 1] + [q[i]] + q[i + 1:]
+    if kind == 'inv':
+        # inversion in place: labels i..j keep their span but appear in reverse order (mirrored about the middle of the span)
+        i, j = op[1], op[2]
+        if not 0 <= i < j < n:
+            return None
+        lo, hi = q[i], q[j]
+        return q[:i] + sorted(round(lo + hi - p, 1) for p in q[i:j + 1]) + q[j + 1:]
     if kind == 'chimera':
         other, gap = op[1], op[2]
         base = q[-1] + gap
@@ -157,6 +164,8 @@ def edit_alphabet(q, full=False, chimeras=()):
         ops += [('cut', 'head', k), ('cut', 'tail', k)]
     for i in idx:
         ops.append(('dup', i))
+    if n >= 18:
+        ops += [('inv', n // 3, 2 * n // 3), ('inv', 2, n // 2), ('inv', n // 2, n - 3)]
     for other, gap in chimeras:
         ops.append(('chimera', list(other), gap))
     return ops
